@@ -290,6 +290,14 @@ class Session:
                 mfmt.info_title(screen.node)
                 mfmt.info_str(screen.node, self.state.kconf)
                 log.append(("info",))
+                if not cancel and tok.get("k", 0) % 3 == 0 and not getattr(screen, "from_jump_to", False):
+                    # `/` pressed inside the information screen: the real InfoScreen._handle_jump (jump in the model, pop the
+                    # screen - the main list is *not* repopulated, the widget keeps showing the menu it showed before)
+                    matches, err = self.state.search_nodes(tok.get("query", ""))
+                    node = matches[(tok.get("k", 0) // 3) % len(matches)] if matches else None
+                    log.append(("jump-from-info", tok.get("query", ""), len(matches), err))
+                    fake = types.SimpleNamespace(_state=screen._state, app=a)
+                    mscr.InfoScreen._handle_jump(fake, node)
             else:
                 log.append(("screen", type(screen).__name__))
                 if cb:
